@@ -254,7 +254,7 @@ class FDecl:
         s = "func "
         if self.recv is not None:
             s += "(" + go_params(self.recv) + ") "
-        s += "%s(%s)" % (self.name, go_params(self.params))
+        s += "%s%s(%s)" % (self.name, getattr(self, "tparams", ""), go_params(self.params))
         if self.results is not None:
             r = go_params(self.results)
             s += " (" + r + ")" if (len(self.results) != 1 or self.results[0].names) else " " + r
@@ -1353,7 +1353,8 @@ def d_map_shootnew(rng, c):
     R = [Param(["t"], tstar(tid(T)))]
     f.decls[:] = [d for d in f.decls if not (d[0] == "func" and (d[1].name in ("New" + T, "SetName", "Name", "Id", "SetId") ))]
     for k in rng.sample(["ctor_unnamed", "ctor_nobody", "ctor_mixed", "set_noparam", "set_two", "get_empty", "get_two",
-                         "get_nobody", "set_nobody"], rng.randint(1, 3)):
+                         "get_nobody", "set_nobody", "ctor_noresult", "ctor_noresult", "ctor_tworesults", "ctor_noparams",
+                         "ctor_method", "ctor_variadic", "ctor_valueresult"], rng.randint(1, 3)):
         if k.startswith("ctor") and any(d[0] == "func" and d[1].name == "New" + T for d in f.decls):
             continue
         if k == "ctor_unnamed":
@@ -1365,6 +1366,20 @@ def d_map_shootnew(rng, c):
         elif k == "ctor_mixed":
             f.decls.append(("func", FDecl("New" + T, None, [Param(["a", "b"], tid("int"))],
                                           [Param([], tstar(tid(T)))], {"text": "\treturn &%s{}\n" % T})))
+        elif k == "ctor_noresult":
+            f.decls.append(("func", FDecl("New" + T, None, [Param(["id"], tid("int"))], rng.choice([None, []]), {"text": ""})))
+        elif k == "ctor_tworesults":
+            f.decls.append(("func", FDecl("New" + T, None, [Param(["id"], tid("int"))],
+                                          [Param([], tstar(tid(T))), Param([], tid("error"))], {"text": "\treturn &%s{}, nil\n" % T})))
+        elif k == "ctor_noparams":
+            f.decls.append(("func", FDecl("New" + T, None, [], [Param([], tstar(tid(T)))], {"text": "\treturn &%s{}\n" % T})))
+        elif k == "ctor_method":
+            f.decls.append(("func", FDecl("New" + T, [Param(["t"], tstar(tid(T)))], [Param(["id"], tid("int"))], None, {"text": ""})))
+        elif k == "ctor_variadic":
+            f.decls.append(("func", FDecl("New" + T, None, [Param(["ids"], ("ell", tid("int")))],
+                                          [Param([], tstar(tid(T)))], {"text": "\treturn &%s{}\n" % T})))
+        elif k == "ctor_valueresult":
+            f.decls.append(("func", FDecl("New" + T, None, [Param(["id"], tid("int"))], [Param([], tid(T))], {"text": "\treturn %s{}\n" % T})))
         elif k == "set_noparam":
             f.decls.append(("func", FDecl("SetName", R, [], None, {"text": ""})))
         elif k == "set_two":
